@@ -32,8 +32,9 @@ def tla(x):
     raise TypeError(type(x))
 
 
-def cfg(kind, n=1, n2=1, n3=1, m=Fraction(2), seed=Fraction(1, 10)):
-    return {"kind": kind, "n": n, "n2": n2, "n3": n3, "m": Fraction(m), "seed": Fraction(seed)}
+def cfg(kind, n=1, n2=1, n3=1, m=Fraction(2), seed=Fraction(1, 10), dflt=False):
+    """dflt: the real instance is obtained through Default::default() (the configuration must then be the documented defaults)"""
+    return {"kind": kind, "n": n, "n2": n2, "n3": n3, "m": Fraction(m), "seed": Fraction(seed), "dflt": dflt}
 
 
 def bar(h, l, c, o=None, v=1):
